@@ -363,3 +363,15 @@ Proof.
   cbn [fst snd] in H. apply andb_prop in H. destruct H as [H1 H2].
   apply Z.leb_le in H1. apply Z.ltb_lt in H2. split; assumption.
 Qed.
+
+(* ------------------------------------------------------------------ finalizeTable's rebucketing *)
+(* a moved rule is a context rule: for it the REGENERATED condition of the rebucketing loop is the REGENERATED
+   insertion condition of addForwardRuleWithMultipleChars, the one the checker orders forward chains by *)
+Lemma rebucket_is_insertion_l : forall nl rl rop,
+  rebucket_before nl CTO_Context rl rop = fwd_multi_before nl CTO_Context rl rop.
+Proof.
+  intros nl rl rop. unfold rebucket_before, fwd_multi_before, CTO_Context.
+  destruct (nl >? rl); cbn [orb]; [reflexivity|].
+  destruct (nl =? rl); cbn [andb orb]; [|reflexivity].
+  destruct (rop =? 83) eqn:E; cbn [andb]; reflexivity.
+Qed.
